@@ -108,6 +108,7 @@ import csv
 import hashlib
 import itertools
 import json
+import math
 from pathlib import Path
 from typing import Any, Dict, List, Mapping, Tuple
 
@@ -267,6 +268,28 @@ def _expand_entries(entries: Dict[str, List[Any]], mode: str) -> List[Dict[str, 
         raise ConfigurationError(f"Unknown expansion mode '{mode}'")
 
 
+def _entries_size(entries: Dict[str, List[Any]], mode: str) -> int:
+    """Number of runs :func:`_expand_entries` yields, computed without building them."""
+    if not entries:
+        return 0
+
+    lengths = [len(entries[key]) for key in sorted(entries)]
+
+    if mode == "by_position":
+        if len(set(lengths)) > 1:
+            lengths_by_key = {key: len(entries[key]) for key in sorted(entries)}
+            raise ConfigurationError(
+                f"by_position block requires identical list lengths; got {lengths_by_key}"
+            )
+        return lengths[0]
+
+    elif mode == "combinatorial":
+        return math.prod(lengths)
+
+    else:
+        raise ConfigurationError(f"Unknown expansion mode '{mode}'")
+
+
 def _load_and_process_source(
     src: RunSource, base_dir: Path
 ) -> Tuple[Dict[str, List[Any]], Dict[str, Any]]:
@@ -336,6 +359,76 @@ def _load_and_process_source(
     return columns, meta
 
 
+def _block_size(
+    block: Any, context_entries: Dict[str, List[Any]], source_entries: Dict[str, List[Any]]
+) -> int:
+    """Number of runs :func:`_expand_block` yields, computed without building them."""
+    if block.mode == "by_position":
+        source_mode = block.source.mode if block.source else "by_position"
+        sizes = []
+        if context_entries:
+            sizes.append(_entries_size(context_entries, "by_position"))
+        if source_entries:
+            sizes.append(_entries_size(source_entries, source_mode))
+        if sizes and len(set(sizes)) != 1:
+            raise ConfigurationError(
+                f"by_position block requires equal run counts between context and source; got {sizes}"
+            )
+        return sizes[0] if sizes else 0
+
+    elif block.mode == "combinatorial":
+        source_mode = block.source.mode if block.source else "combinatorial"
+        context_size = (
+            _entries_size(context_entries, "combinatorial") if context_entries else 1
+        )
+        source_size = (
+            _entries_size(source_entries, source_mode) if source_entries else 1
+        )
+        return context_size * source_size
+
+    else:
+        raise ConfigurationError(f"Unknown block mode '{block.mode}'")
+
+
+def _expand_block(
+    block: Any, context_entries: Dict[str, List[Any]], source_entries: Dict[str, List[Any]]
+) -> List[Dict[str, Any]]:
+    """Combine the context and source entries of one validated block into its runs."""
+    block_runs: List[Dict[str, Any]] = []
+    if block.mode == "by_position":
+        context_runs = (
+            _expand_entries(context_entries, "by_position") if context_entries else None
+        )
+        source_mode = block.source.mode if block.source else "by_position"
+        source_runs = (
+            _expand_entries(source_entries, source_mode) if source_entries else None
+        )
+        sizes = [len(runs) for runs in [context_runs, source_runs] if runs is not None]
+        for i in range(sizes[0] if sizes else 0):
+            combined = {}
+            if context_runs is not None:
+                combined.update(context_runs[i])
+            if source_runs is not None:
+                combined.update(source_runs[i])
+            block_runs.append(combined)
+    else:
+        context_runs = (
+            _expand_entries(context_entries, "combinatorial")
+            if context_entries
+            else [{}]
+        )
+        source_mode = block.source.mode if block.source else "combinatorial"
+        source_runs = (
+            _expand_entries(source_entries, source_mode) if source_entries else [{}]
+        )
+        for ctx in context_runs:
+            for src in source_runs:
+                merged = dict(ctx)
+                merged.update(src)
+                block_runs.append(merged)
+    return block_runs
+
+
 def expand_run_space(
     spec: RunSpaceV1Config, *, cwd: str | Path = "."
 ) -> Tuple[List[Dict[str, Any]], Dict[str, Any]]:
@@ -362,11 +455,12 @@ def expand_run_space(
         metadata structure described in the module level docs.
     """
     base_dir = Path(cwd)
-    all_block_runs = []
+    planned = []
+    block_sizes = []
     block_meta = []
     seen_keys: set[str] = set()
 
-    # Process each block
+    # Validate each block and compute its size; no run is built yet
     for index, block in enumerate(spec.blocks):
         context_entries = {key: list(values) for key, values in block.context.items()}
         source_entries: Dict[str, List[Any]] = {}
@@ -383,56 +477,7 @@ def expand_run_space(
                     f"Duplicate context key(s) within block (context vs source): {sorted(duplicate_keys)!r}"
                 )
 
-        # Combine context and source based on block mode
-        if block.mode == "by_position":
-            context_runs = (
-                _expand_entries(context_entries, "by_position")
-                if context_entries
-                else None
-            )
-            source_mode = block.source.mode if block.source else "by_position"
-            source_runs = (
-                _expand_entries(source_entries, source_mode) if source_entries else None
-            )
-
-            sizes = [
-                len(runs) for runs in [context_runs, source_runs] if runs is not None
-            ]
-            if sizes and len(set(sizes)) != 1:
-                raise ConfigurationError(
-                    f"by_position block requires equal run counts between context and source; got {sizes}"
-                )
-
-            run_count = sizes[0] if sizes else 0
-            block_runs = []
-            for i in range(run_count):
-                combined = {}
-                if context_runs is not None:
-                    combined.update(context_runs[i])
-                if source_runs is not None:
-                    combined.update(source_runs[i])
-                block_runs.append(combined)
-
-        elif block.mode == "combinatorial":
-            context_runs = (
-                _expand_entries(context_entries, "combinatorial")
-                if context_entries
-                else [{}]
-            )
-            source_mode = block.source.mode if block.source else "combinatorial"
-            source_runs = (
-                _expand_entries(source_entries, source_mode) if source_entries else [{}]
-            )
-
-            block_runs = []
-            for ctx in context_runs:
-                for src in source_runs:
-                    merged = dict(ctx)
-                    merged.update(src)
-                    block_runs.append(merged)
-
-        else:
-            raise ConfigurationError(f"Unknown block mode '{block.mode}'")
+        block_size = _block_size(block, context_entries, source_entries)
 
         # Check for duplicate keys across blocks
         current_keys = set(context_entries) | set(source_entries)
@@ -443,71 +488,61 @@ def expand_run_space(
             )
         seen_keys.update(current_keys)
 
-        all_block_runs.append(block_runs)
+        planned.append((block, context_entries, source_entries))
+        block_sizes.append(block_size)
 
         # Build block metadata
         block_meta_dict: Dict[str, Any] = {
             "mode": block.mode,
-            "size": len(block_runs),
+            "size": block_size,
             "context_keys": sorted(current_keys),
         }
         if source_meta is not None:
             block_meta_dict["source"] = source_meta
         block_meta.append(block_meta_dict)
 
-    # Combine all blocks
-    if not all_block_runs:
+    # Number of final runs, checked against max_runs before anything is expanded
+    if not planned:
         # A specification without blocks still yields one (empty) run
-        if 1 > spec.max_runs:
-            raise RunSpaceMaxRunsExceededError(
-                actual_runs=1,
-                max_runs=spec.max_runs,
-            )
-        combined_runs: List[Dict[str, Any]] = [{}]
+        total = 1
     elif spec.combine == "combinatorial":
-        if any(len(runs) == 0 for runs in all_block_runs):
-            combined_runs = []
-        else:
-            total = 1
-            for runs in all_block_runs:
-                total *= len(runs)
+        total = 0 if 0 in block_sizes else math.prod(block_sizes)
+    elif spec.combine == "by_position":
+        if len(set(block_sizes)) != 1:
+            raise ConfigurationError(
+                f"combine=by_position requires equal block sizes; got {block_sizes}"
+            )
+        total = block_sizes[0]
+    else:
+        raise ConfigurationError(f"Unknown run_space combine mode '{spec.combine}'")
 
-            if total > spec.max_runs:
-                raise RunSpaceMaxRunsExceededError(
-                    actual_runs=total,
-                    max_runs=spec.max_runs,
-                )
+    if total > spec.max_runs and not (spec.combine == "combinatorial" and total == 0):
+        raise RunSpaceMaxRunsExceededError(
+            actual_runs=total,
+            max_runs=spec.max_runs,
+        )
 
-            combined_runs = []
+    # Expand and combine all blocks
+    combined_runs: List[Dict[str, Any]] = []
+    if not planned:
+        combined_runs = [{}]
+    elif total:
+        all_block_runs = [
+            _expand_block(block, context_entries, source_entries)
+            for block, context_entries, source_entries in planned
+        ]
+        if spec.combine == "combinatorial":
             for combo in itertools.product(*all_block_runs):
                 merged = {}
                 for part in combo:
                     merged.update(part)
                 combined_runs.append(merged)
-
-    elif spec.combine == "by_position":
-        sizes = [len(runs) for runs in all_block_runs]
-        if len(set(sizes)) != 1:
-            raise ConfigurationError(
-                f"combine=by_position requires equal block sizes; got {sizes}"
-            )
-
-        total = sizes[0] if sizes else 0
-        if total > spec.max_runs:
-            raise RunSpaceMaxRunsExceededError(
-                actual_runs=total,
-                max_runs=spec.max_runs,
-            )
-
-        combined_runs = []
-        for idx in range(total):
-            merged = {}
-            for runs in all_block_runs:
-                merged.update(runs[idx])
-            combined_runs.append(merged)
-
-    else:
-        raise ConfigurationError(f"Unknown run_space combine mode '{spec.combine}'")
+        else:
+            for idx in range(total):
+                merged = {}
+                for runs in all_block_runs:
+                    merged.update(runs[idx])
+                combined_runs.append(merged)
 
     # Build final metadata
     meta: Dict[str, Any] = {
